@@ -220,6 +220,16 @@ func Spell(items []Item, ch SpellChoice) string {
 			kwi++
 			b.WriteString(w)
 		default:
+			if it.Kind == 'l' && ch.Ws != nil && strings.HasPrefix(it.Text, "datetime(") && strings.HasSuffix(it.Text, ")") {
+				// the datetime token has two whitespace slots of its own, inside the parentheses on either side of the timestamp
+				b.WriteString("datetime(")
+				b.WriteString(ch.Ws('*', ws))
+				b.WriteString(it.Text[len("datetime(") : len(it.Text)-1])
+				b.WriteString(ch.Ws('*', ws+1))
+				b.WriteString(")")
+				ws += 2
+				continue
+			}
 			b.WriteString(it.Text)
 		}
 	}
